@@ -183,10 +183,11 @@ CLAIMED = {
         category="other",
         text="C01 is the composition of the per-construct cross-backend obligations discharged under C02-C09, C11, C16, C17 (each proves or bounds den_sqlite(compile_sql(c)) == den_polars(compile_polars(c)) for one "
         "construct under the callee contract of the child pipeline). Decided here: a static dispatch-totality contract (both compilers and Cache.update have a branch for every Verb subclass and recurse into "
-        "nd.child exactly once, so no verb escapes the per-verb obligations), and a bounded stand-in for the composition itself: every pipeline over a 24-step alphabet up to depth 3 (quick) / 4 (thorough), plus "
-        "99 expression steps (window functions x ordering markers x partitioning, aggregates with filter=, case, arithmetic, strings, casts) in 16 context pipelines, on four input tables (nulls and duplicates, empty, "
-        "single row, 120 rows with a 40-row null prefix), is executed on Polars and on in-memory SQLite and compared in names, order and rows (sequence when an arrange on a unique key fixes the order, multiset "
-        "otherwise); only SubqueryError / NotSupportedError may differ.",
+        "nd.child exactly once, so no verb escapes the per-verb obligations), and a bounded stand-in for the composition itself: every pipeline over a 30-step alphabet up to depth 3 (quick) / 4 (thorough), plus "
+        "103 expression steps (window functions x ordering markers x partitioning, aggregates with filter=, case, arithmetic, strings, casts) in 16 context pipelines, seeded random pipelines of 4-6 steps, hidden columns "
+        "referenced through earlier table objects, and an operator sweep (every operator x accepted signature x sample columns / literals / an untyped None, aggregates and window functions in their contexts), on four input "
+        "tables (nulls and duplicates, empty, single row, 120 rows with a 40-row null prefix), is executed on Polars and on in-memory SQLite and compared in names, order and rows (sequence when an arrange on a unique key "
+        "fixes the order, multiset otherwise); only SubqueryError / NotSupportedError may differ.",
         design_ref="DESIGN.md §5.1",
         technique="static dispatch-totality contract + bounded native Polars-vs-SQLite differential over enumerated pipelines",
         note="bounded: step alphabet, depth, four input tables; the unbounded argument is the composition of other properties' obligations and is not re-proved here",
